@@ -74,7 +74,11 @@ def hashlm_class():
 
         # ---- library side
         def update_input(self, prev, hist):
-            if "h" in prev:
+            # `rebuild_state`: a model that derives its starting state from the static input on EVERY call, without
+            # looking whether it is already there.  The documentation hands update_input "the initial prev
+            # dictionary ... prior to calculating any log probabilities" and asks only for idempotence there,
+            # which this satisfies; applied to a state in mid-search it resets the model to the start.
+            if "h" in prev and not getattr(self, "rebuild_state", False):
                 return prev
             N = hist.size(1)
             cond = prev.get("cond")
